@@ -74,6 +74,12 @@ pub fn gen(rng: &mut Rng, n: usize, out: &mut Vec<String>) {
         out.push(format!("parse {}", hex(&enc)));
     }
     for _ in 0..n / 10 { let k = 1 + rng.below(12) as usize; out.push(format!("parse {}", hex(&rng.bytes(k)))); }
+    // length octets at their edges (F38): the indefinite-form octet, nine length octets led by zero (valid) and by one (2^64 more), 127 of them
+    for w in ["0480", "3080", "30030480ff", "0480ff", "04890000000000000000016161", "04890100000000000000016161", "3089000000000000000003040161ff", "308901000000000000000304016 1ff", "04880000000000000001ff", "0488ffffffffffffffff", "04810161", "048100"] {
+        out.push(format!("parse {}", w.replace(' ', "")));
+    }
+    { let mut e = vec![0x04u8, 0xff]; e.extend([0u8; 126]); e.push(2); e.extend([7u8, 8, 9]); out.push(format!("parse {}", hex(&e)));
+      let mut e = vec![0x04u8, 0xff]; e.push(1); e.extend([0u8; 125]); e.push(2); e.extend([7u8, 8, 9]); out.push(format!("parse {}", hex(&e))); }
     // nesting around the depth limit
     for d in [1usize, 2, MAX_DEPTH - 1, MAX_DEPTH, MAX_DEPTH + 1, MAX_DEPTH + 2, MAX_DEPTH + 3, 300] {
         let mut t = StructureTag { class: TagClass::Universal, id: 4, payload: PL::P(vec![1]) };
@@ -145,7 +151,10 @@ pub fn run(lane: &str, args: &[&str]) -> (String, Option<String>) {
                     if want != got { Some(format!("valid definite-length input: independent reader gives {} but lber gives {}", clip(&want), clip(&got))) } else { None }
                 }
                 // deeper than the parser's recursion guard (repair F6, for C11): valid input, refused - known finding F36
-                Own::Ok(t, _) if got != "panic" => if got.starts_with("ok ") { None } else { Some(format!("F36-depth-limit: valid definite-length input nested {} levels deep is refused by the parser's recursion guard", ownber::depth(&t))) },
+                Own::Ok(t, _) if got != "panic" => if got.starts_with("ok ") { None } else { Some(format!("[only:C07] F36-depth-limit: valid definite-length input nested {} levels deep is refused by the parser's recursion guard", ownber::depth(&t))) },
+                // and the converse (F38): what the independent reader cannot read as definite-length BER (the indefinite-form octet 0x80, length
+                // octets worth 2^64 or more, a child overrunning its parent, a cut-off element) must not come out as a tree
+                Own::Invalid | Own::Truncated if got.starts_with("ok ") => Some(format!("F38-length: not a complete definite-length BER element, yet lber gives {}", clip(&got))),
                 _ => if got == "panic" { Some("parser panicked".to_string()) } else { None },
             };
             (got, oracle)
